@@ -131,6 +131,10 @@ def object_world(ctx, name, kinds, new, ops, do, modules, depth, check=None, equ
 # sequences of calls of "pure" module-level functions
 
 
+class CheckFailed(Exception):
+    """raised by a `run` callback of call_sequences when its own independent oracle rejects a result"""
+
+
 def _snap(r):
     out = []
     for v in (r if isinstance(r, (list, tuple)) else [r]):
@@ -141,7 +145,7 @@ def _snap(r):
 
 
 def call_sequences(ctx, name, make_pool, calls, run, modules, depth, mutations=(), mutate=None, equal=None,
-                   nodedup_depth=2, bounds=None, enabled_after=None):
+                   nodedup_depth=2, bounds=None, enabled_after=None, result_edits=False):
     """E2 over sequences of calls of module-level functions that are documented as pure.
 
     A pool of named argument arrays (``make_pool()`` -> dict) lives for the whole history, so the
@@ -167,12 +171,32 @@ def call_sequences(ctx, name, make_pool, calls, run, modules, depth, mutations=(
             if ev[0] == "m":
                 mutate(ev[1:], pool)
                 continue
+            if ev[0] == "r":
+                # the caller edits, in place, the arrays RETURNED by the most recent call (they are the caller's
+                # own objects now); a function that hands out its cached table is corrupted by this
+                if kept and not only_last_call:
+                    _, r, _ = kept.pop()
+                    for v in (r if isinstance(r, (list, tuple)) else [r]):
+                        if isinstance(v, np.ndarray) and v.flags.writeable and v.size:
+                            if any(isinstance(a, np.ndarray) and np.shares_memory(v, a) for a in pool.values()):
+                                continue      # a view of the caller's own argument (legitimate): editing it is the caller's business
+                            if v.dtype.names:
+                                for nm in v.dtype.names:
+                                    if v.dtype[nm].kind in "iuf":
+                                        v[nm] = v[nm] * 2 + 1
+                            elif v.dtype.kind in "iuf":
+                                v[...] = v * 2 + 1
+                continue
             if only_last_call and i != len(hist) - 1:
                 continue
             before = {k: _snap(v) for k, v in pool.items()}
             try:
                 r = run(ev[1:], pool)
                 last = ("ok", r)
+            except CheckFailed as e:
+                msg = "call %r: %s" % (ev[1:], e)
+                last = ("exc", "CheckFailed")
+                r = None
             except Exception as e:
                 last = ("exc", "%s: %s" % (type(e).__name__, str(e)[:200]))
                 r = None
@@ -216,11 +240,14 @@ def call_sequences(ctx, name, make_pool, calls, run, modules, depth, mutations=(
                          % (hist[-1][1:], last[0], show(last[1]), hist[:-1], ref[0], show(ref[1])))
                 return None
         menu = [("c",) + tuple(c) for c in calls] + [("m",) + tuple(m) for m in mutations]
+        if result_edits and hist and hist[-1][0] == "c":
+            menu.append(("r",))
         if enabled_after is not None:
             menu = [e for e in menu if enabled_after(hist, e)]
         return key, tuple(menu)
 
     b = dict(calls=[repr(c) for c in calls], mutations=[repr(m) for m in mutations], depth=depth,
+             result_edits="the caller may edit the arrays returned by the latest call in place" if result_edits else "none",
              isolation="every history in a forked child with pristine module state; reference = the last call as the only "
                        "call of a process")
     b.update(bounds or {})
